@@ -269,7 +269,7 @@ class TGen:
     def opscope(self, depth):
         rng = self.rng
         act = self.active
-        choices = ["206"]
+        choices = [] if ({"202", "207"} & act) else ["206"]   # an unknown local descriptor has no Table B scale to change
         if "204" not in act or self.nest204:
             choices.append("204")
         if "204" not in act:
@@ -281,6 +281,8 @@ class TGen:
                 choices.append("207")     # 2 07 combined with 2 01/2 02/2 03: not generated (note to 2 07 in Table C)
             if "208" not in act:
                 choices.append("208")
+        if not choices:
+            return self.elem()
         op = rng.choice(choices)
         had = op in act
         act.add(op)
